@@ -521,3 +521,203 @@ def collector_never_breaks(ck, rule, facts, crate, impl_prefix, name, floor=1):
             ck.ok(rule, "%s::%s:never-breaks" % (name, meth))
     ck.floor(rule, "%s.methods" % name, n, floor)
     return n
+
+
+# ---- monotone boolean functions ("may differ" = OR of the component results) --------------------------------------------------
+
+class _Return(Exception):
+    def __init__(self, v):
+        self.v = v
+
+
+def _diverges(n):
+    """a panic!/unreachable! expression (type `!`)"""
+    for c in walk(n, skip_tracing=False):
+        if c.get("k") == "call" and any(str(x).startswith(PANIC_FNS) for x in callee_names(c)):
+            return True
+    return False
+
+
+def bool_paths(node):
+    """Expand every `match` that gives the value of `node` (tail position, through blocks) into one tree per arm:
+    -> list of (arm-label, tree) where tree has the match replaced by the arm body."""
+    n = node
+    if not isinstance(n, dict):
+        return [("", n)]
+    k = n.get("k")
+    if k == "block" and n.get("expr") is not None:
+        out = []
+        for lab, sub in bool_paths(n["expr"]):
+            m = dict(n)
+            m["expr"] = sub
+            out.append((lab, m))
+        return out
+    if k == "match":
+        out = []
+        for i, arm in enumerate(n.get("arms", [])):
+            for lab, sub in bool_paths(arm["body"]):
+                out.append(("arm%d%s" % (i, lab), {"k": "block", "stmts": [], "expr": sub, "_arm": arm}))
+        return out
+    return [("", n)]
+
+
+def bool_atoms(n, out=None):
+    """atoms of a boolean tree in evaluation order: maximal sub-expressions that are not boolean structure"""
+    if out is None:
+        out = []
+    n = peel(n)
+    if not isinstance(n, dict):
+        return out
+    k = n.get("k")
+    if k == "block":
+        for st in n.get("stmts", []):
+            if st.get("k") == "let":
+                continue
+            if st.get("k") in ("if", "return"):
+                bool_atoms(st, out)
+        if n.get("expr") is not None:
+            bool_atoms(n["expr"], out)
+    elif k == "if":
+        bool_atoms(n["cond"], out)
+        bool_atoms(n["then"], out)
+        if n.get("else") is not None:
+            bool_atoms(n["else"], out)
+    elif k == "logic":
+        bool_atoms(n["l"], out)
+        bool_atoms(n["r"], out)
+    elif k == "un" and n.get("op") == "Not":
+        bool_atoms(n["e"], out)
+    elif k == "return":
+        if n.get("e") is not None:
+            bool_atoms(n["e"], out)
+    elif k == "lit":
+        pass
+    else:
+        out.append(n)
+    return out
+
+
+def bool_eval(n, vals):
+    """evaluate a boolean tree under an assignment {id(atom): bool}; None = not interpretable"""
+    n = peel(n)
+    if not isinstance(n, dict):
+        return None
+    k = n.get("k")
+    if id(n) in vals:
+        return vals[id(n)]
+    if k == "block":
+        for st in n.get("stmts", []):
+            if st.get("k") == "let" and st.get("else") is None:
+                continue
+            if st.get("k") in ("if", "return"):
+                bool_eval(st, vals)       # may raise _Return
+                continue
+            if not any(x.get("k") == "return" for x in walk(st, skip_tracing=False)):
+                continue                  # cannot decide the result (an assertion, a log line)
+            return None
+        return bool_eval(n["expr"], vals) if n.get("expr") is not None else None
+    if k == "lit":
+        v = str(n.get("v"))
+        return True if "true" in v else False if "false" in v else None
+    if k == "un" and n.get("op") == "Not":
+        r = bool_eval(n["e"], vals)
+        return None if r is None else (not r)
+    if k == "logic":
+        l = bool_eval(n["l"], vals)
+        if n["op"] == "Or":
+            if l is True:
+                return True
+            r = bool_eval(n["r"], vals)
+            return r if l is False else (True if r is True else None)
+        if l is False:
+            return False
+        r = bool_eval(n["r"], vals)
+        return r if l is True else (False if r is False else None)
+    if k == "if":
+        c = bool_eval(n["cond"], vals)
+        if c is None:
+            return None
+        if c:
+            return bool_eval(n["then"], vals)
+        return bool_eval(n["else"], vals) if n.get("else") is not None else None
+    if k == "return":
+        raise _Return(bool_eval(n["e"], vals) if n.get("e") is not None else None)
+    return None
+
+
+def atom_polarity(a, differ_calls):
+    """+1: the atom being true means `the components may differ`; -1: being false means that; 0: unknown"""
+    k = a.get("k")
+    if k == "bin" and a.get("op") in ("Ne", "Eq"):
+        return 1 if a["op"] == "Ne" else -1
+    if k == "call":
+        if callee_matches(a, "PartialEq::ne"):
+            return 1
+        last = {str(x).split("::")[-1] for x in callee_names(a)}
+        if callee_matches(a, "PartialEq::eq") or "const_eq" in last:
+            return -1
+        if any(differ_calls(x) for x in last):
+            return 1
+    return 0
+
+
+def may_differ_disjunctive(ck, rule, inst_prefix, where, tree, differ_calls, describe):
+    """`tree` computes "the two values may differ".  It must be monotone in every component test: whenever one component test says
+    `may differ` (and all others say `same`), the result is true.  `&&` between component results, a negated test, an early
+    `return false`, all break this.  -> number of component tests examined"""
+    n = 0
+    for lab, path in bool_paths(tree):
+        arm = path.get("_arm") if isinstance(path, dict) else None
+        atoms = bool_atoms(path)
+        if not atoms:
+            continue
+        pols = [atom_polarity(a, differ_calls) for a in atoms]
+        if _diverges(path) and all(p == 0 for p in pols):
+            continue
+        ln = (arm or {}).get("ln")
+        for a, p in zip(atoms, pols):
+            desc = describe(a)
+            inst = "%s%s:%s" % (inst_prefix, (":" + arm_label(arm)) if arm else "", desc)
+            if p == 0:
+                ck.violation(rule, inst + ":unclassified", where(a.get("ln") or ln), "a test the evaluator cannot read as a component comparison "
+                             "(checker limitation or an unusual construct)")
+                continue
+            n += 1
+            vals = {id(b): (q < 0) for b, q in zip(atoms, pols)}      # every component: `same`
+            vals[id(a)] = (p > 0)                                      # this one: `may differ`
+            try:
+                r = bool_eval(path, vals)
+            except _Return as e:
+                r = e.v
+            if r is True:
+                ck.ok(rule, inst, "alone sufficient for `true`")
+            else:
+                ck.violation(rule, inst, where(a.get("ln") or ln), "when only this component may differ the function answers %s: a differing "
+                             "component is masked (e.g. `&&` instead of `||`, a negation, an early `return false`)" % ("false" if r is False else "something the evaluator cannot read"))
+    return n
+
+
+def arm_label(arm):
+    """variant names of an arm's pattern, e.g. (Array,Array)"""
+    if not arm:
+        return ""
+    names = []
+
+    def go(p):
+        if not isinstance(p, dict):
+            return
+        if p.get("k") == "variant" and p.get("v"):
+            names.append(str(p["v"]))
+            return
+        for key in ("sub", "pats"):
+            v = p.get(key)
+            if isinstance(v, list):
+                for x in v:
+                    if isinstance(x, (list, tuple)):
+                        go(x[-1])
+                    else:
+                        go(x)
+            elif isinstance(v, dict):
+                go(v)
+    go(arm.get("pat"))
+    return "(%s)" % ",".join(names[:4]) if names else "(_)"
